@@ -3,13 +3,16 @@ import MidnightZK.Gen.C07Poseidon
 import MidnightZK.Proofs.C07.Eval
 import MidnightZK.Proofs.C07.ShaSpec
 import MidnightZK.Proofs.C07.Varlen
+import MidnightZK.Proofs.C07.VarlenTail
 import MidnightZK.Proofs.C07.GrainAll
 import MidnightZK.Proofs.C07.Sponge
 import MidnightZK.Proofs.C07.VarlenShaA
 import MidnightZK.Proofs.C07.VarlenShaB
 import MidnightZK.Proofs.C07.VarlenShaC
 import MidnightZK.Proofs.C07.VarlenShaD
+import MidnightZK.Proofs.C07.VarlenShaGen
 import MidnightZK.Proofs.C07.ChipDigest
+import MidnightZK.Proofs.C07.Chip512Digest
 import MidnightZK.Proofs.C10.Prime
 /-!
 # C07 — hash gadgets equal their reference functions on every message
@@ -156,6 +159,62 @@ theorem varlen_filler_independent (P : PParams F) (ofNat : Nat → F) (perm : Li
   exact Option.some.inj (h1.trans h2.symm)
 
 end
+
+section
+variable {F : Type} [CommRing F]
+
+/-- **poseidon_varlen_tail_independent.** `poseidon_varlen` for EVERY `RATE ≥ 1`, every `WIDTH`, every
+`MAX_LEN` multiple of `RATE`, every `len ≤ MAX_LEN` and any permutation function: the digest only depends
+on the buffer cells `get_lims(len)` that hold the payload. Two buffers that agree on these cells — whatever
+they hold in the filler cells in front of the payload AND in the unused tail of the last chunk (the cells
+`constrain_last_chunk` zeroes; seed C07-3 removed exactly that) — give the same digest. This is the general
+form of `varlen_filler_independent` (which is for the shipped `RATE = 2` and buffers built by
+`assign_with_filler`). -/
+theorem poseidon_varlen_tail_independent (P : PParams F) (ofNat : Nat → F) (perm : List F → List F)
+    (maxLen len : Nat) (b1 b2 : List F)
+    (hr : 0 < P.rate) (hm : maxLen % P.rate = 0) (hlen : len ≤ maxLen)
+    (hagree : ∀ i, (getLims maxLen P.rate len).1 ≤ i → i < (getLims maxLen P.rate len).2 →
+      b1.getD i 0 = b2.getD i 0) :
+    varlen P ofNat perm maxLen b1 len = varlen P ofNat perm maxLen b2 len := by
+  unfold varlen
+  simp only [nChunks_eq maxLen P.rate hr hm, List.range_eq_range']
+  rw [varlen_fold_congr P perm maxLen len b1 b2 hr hm hlen hagree (maxLen / P.rate) 0 _ false (by omega)
+    (fun h => by cases h)]
+
+/-- **The loop of `constrain_last_chunk`.** The literal mirror of the Rust loop (`after_data ^= (offset == i)`;
+`elem = select(after_data, 0, elem)` for `i = 1 … RATE-1`) equals, for every chunk length and every offset,
+the closed form used in `varlenStep`: cells `j ≥ offset` are zero when `offset ≠ 0`, the chunk is returned
+intact when `offset = 0`. -/
+theorem constrain_last_chunk_spec (chunk : List F) (offset j : Nat) :
+    (constrainLastChunk chunk offset).getD j 0
+      = if offset ≠ 0 ∧ offset ≤ j then 0 else chunk.getD j 0 :=
+  constrainLastChunk_getD chunk offset j
+
+/-- The function the driver runs for the `varlen` requests (`varlenLoop`: `poseidon_varlen` with the literal
+`constrain_last_chunk` loop, compared with the real circuit on every run) is the function the theorems
+`varlen_select_spec`, `varlen_filler_independent` and `poseidon_varlen_tail_independent` are about. -/
+theorem varlen_loop_eq_closed_form (P : PParams F) (ofNat : Nat → F) (perm : List F → List F) (maxLen : Nat)
+    (buffer : List F) (len : Nat) :
+    varlenLoop P ofNat perm maxLen buffer len = varlen P ofNat perm maxLen buffer len :=
+  varlenLoop_eq P ofNat perm maxLen buffer len
+
+end
+
+/-- Non-vacuity of `poseidon_varlen_tail_independent` on the real field with a rate the shipped code does
+not use (`RATE = 3`, `MAX_LEN = 6`, `len = 4`): the payload sits in cells `0 … 3` of the buffer (`get_lims`),
+cells 4 and 5 are the unused tail of the last chunk; two different tails, same digest — and the digest
+does depend on a payload cell. -/
+example :
+    let P3 : PParams (Fp Gen.p) := { shippedFp with rate := 3, width := 4 }
+    let perm : List (Fp Gen.p) → List (Fp Gen.p) := fun st => st.map (fun x => x * x + ⟨1⟩)
+    getLims 6 3 4 = (0, 4) ∧
+    varlen P3 (Fp.ofNat Gen.p) perm 6 [⟨1⟩, ⟨2⟩, ⟨3⟩, ⟨4⟩, ⟨55⟩, ⟨66⟩] 4
+      = varlen P3 (Fp.ofNat Gen.p) perm 6 [⟨1⟩, ⟨2⟩, ⟨3⟩, ⟨4⟩, ⟨0⟩, ⟨77⟩] 4 ∧
+    varlen P3 (Fp.ofNat Gen.p) perm 6 [⟨1⟩, ⟨2⟩, ⟨3⟩, ⟨4⟩, ⟨55⟩, ⟨66⟩] 4
+      ≠ varlen P3 (Fp.ofNat Gen.p) perm 6 [⟨1⟩, ⟨2⟩, ⟨3⟩, ⟨5⟩, ⟨55⟩, ⟨66⟩] 4 ∧
+    constrainLastChunk [(⟨9⟩ : Fp Gen.p), ⟨8⟩, ⟨7⟩] 1 = [⟨9⟩, ⟨0⟩, ⟨0⟩] ∧
+    constrainLastChunk [(⟨9⟩ : Fp Gen.p), ⟨8⟩, ⟨7⟩] 0 = [⟨9⟩, ⟨8⟩, ⟨7⟩] := by
+  decide +kernel
 
 /-- Non-vacuity on the real field: payload of odd length 1 in a buffer of 4 with a non-zero
 filler (the regression of the fixed defect), digest = hash of the payload and ≠ 0. -/
@@ -308,6 +367,56 @@ theorem sha256_varlen_select_spec_partial :
   · have := hC (len - 65) (List.mem_range.mpr (by omega))
     have e : 65 + (len - 65) = len := by omega
     rwa [e] at this
+
+/-- **varlen_select_spec (SHA-256), every `MAX_LEN`.** `sha256_varlen` (`final_block_len`, `merge_chunks`,
+`insert_in_array`, `compute_padding`, the conditional-update loop) for EVERY buffer size `MAX_LEN` that is
+a positive multiple of 64, EVERY payload of `len ≤ MAX_LEN` cells placed in the buffer as
+`assign_with_filler` does (right-aligned on 64-byte chunks), every filler and cells of any type `α` (bytes, or
+position tags): the blocks handed to the compression function are, concatenated, exactly the FIPS padding
+`payload ‖ 0x80 ‖ 0…0 ‖ len₆₄` and every block has 64 cells — no filler cell is ever compressed. Symbolic
+proof: induction over the chunks for the conditional-update loop, naturality of `compute_padding` (it only
+moves cells) + kernel evaluation of the 65 possible final-chunk lengths for the two padding blocks. This
+removes the restriction of `sha256_varlen_select_spec_partial` to `MAX_LEN ∈ {64, 128, 192}`. -/
+theorem sha256_varlen_select_spec {α : Type} (zero one filler : α) (lenBytes : Nat → List α) (M : Nat)
+    (hM : M % 64 = 0) (hM0 : 64 ≤ M) (data : List α) (hl : data.length ≤ M)
+    (hlb : (lenBytes data.length).length = 8) :
+    (varlenBlocks zero one lenBytes M (byteBuffer M data filler) data.length).flatten
+      = data ++ [one] ++ List.replicate ((64 - (data.length + 1 + 8) % 64) % 64) zero ++ lenBytes data.length ∧
+    ∀ b ∈ varlenBlocks zero one lenBytes M (byteBuffer M data filler) data.length, b.length = 64 :=
+  varlenBlocks_spec' zero one filler lenBytes M hM hM0 data hl hlb
+
+/-- **varlen_select_spec (SHA-256), digest level.** For every `MAX_LEN` (positive multiple of 64), every
+payload of `len ≤ MAX_LEN` bytes and every filler byte, the digest computed by the model of `sha256_varlen`
+(the function the driver runs on the `sha256varlen` requests, compared with the real circuit) is the
+SHA-256 digest of the payload: `digest (varlen data len) = H (data.take len)`, independently of the
+filler. Any tables `k`, `iv`. -/
+theorem sha256_varlen_digest_spec (k iv : List Nat) (M : Nat) (hM : M % 64 = 0) (hM0 : 64 ≤ M)
+    (data : List Nat) (filler : Nat) (hl : data.length ≤ M) :
+    sha256Varlen (sha256P k iv) M (byteBuffer M data filler) data.length = (sha256P k iv).digest data :=
+  sha256Varlen_eq_digest k iv M hM hM0 data filler hl
+
+/-- **`compute_padding`.** For every final chunk of 64 cells, every final-chunk length `fbl ≤ 64` (the extra
+block flag being `fbl ≥ 56` as `final_block_len` computes it) and the 8 length cells: the second returned
+block (always compressed) ends the FIPS padding, and when `fbl ≥ 56` the two blocks together are
+`chunk[..fbl] ‖ 0x80 ‖ 0…0 ‖ len₆₄`. -/
+theorem sha256_compute_padding_spec {α : Type} (zero one : α) (lb fc : List α) (hlb : lb.length = 8)
+    (hfc : fc.length = 64) (fbl : Nat) (hf : fbl ≤ 64) :
+    computePadding zero one lb fbl (!(decide (fbl < 56))) fc =
+      if fbl < 56 then
+        fc.take fbl ++ List.replicate (64 - fbl) zero ++
+          (fc.take fbl ++ [one] ++ List.replicate (55 - fbl) zero ++ lb)
+      else fc.take fbl ++ [one] ++ List.replicate (119 - fbl) zero ++ lb :=
+  computePadding_spec zero one lb fc hlb hfc fbl hf
+
+/-- Non-vacuity of the general statements: a buffer size outside of the exhaustively evaluated ones
+(`MAX_LEN = 320`), a payload of 70 position tags (two compressed blocks + no extra block … here `70 % 64 = 6`),
+filler tag 999: the compressed cells are the payload, `0x80`, zeros and the length cells. -/
+example :
+    (varlenBlocks 0 1 (fun _ => (List.range 8).map tagLen) 320 (byteBuffer 320 ((List.range 70).map tagData) tagFiller)
+        70).flatten
+      = (List.range 70).map tagData ++ [1] ++ List.replicate 49 0 ++ (List.range 8).map tagLen ∧
+    (byteBuffer 320 ((List.range 70).map tagData) tagFiller).count tagFiller = 250 := by
+  decide +kernel
 
 /-- The check is not vacuous: it fails when the extra-block threshold is off by one (a `len` of 56
 bytes needs the extra block). -/
@@ -681,6 +790,215 @@ theorem sha256_digest_sound_native {a : Asg} (ha : ∀ c, a c < Gen.shaModulus)
   exact sha256_digest_sound hpr (by decide +kernel) ha hext n hS
 
 end ShaChip
+
+/-! ## SHA-512 chip wiring: emitter, generated gates, soundness for every assignment
+
+Same development for `sha512_chip.rs`: `Model/C07/Sha512Chip.lean` is the emitter (696 regions per block,
+compared line by line with the recorded real synthesis), `Gen/C07Sha512Gates.lean` holds the gate
+polynomials dumped from the real `Sha512Chip::configure`. 64-bit words, 13-13-13-13-12 limbs for the
+even/odd halves, 13-12-5-6-13-13-2 (`A`), 13-10-13-10-4-13-1 (`E`) and 3-13-13-13-3-11-1-1-5-1 (message
+word) operand limbs, 80 rounds. `p` is any prime `≥ 2^130` (three spreads of 64-bit words do not wrap). -/
+
+section Sha512Chip
+open Chip
+
+/-- Shape of the generated constraint system of the SHA-512 chip: same lookup columns as the SHA-256 chip
+(`(T_i, A_{2i}, A_{2i+1})`), the logical advice columns are a permutation of the eight shared columns, the
+native modulus is the one of the Poseidon constants and exceeds `2^130`, and the numbers of polynomials per
+gate are those the soundness proofs use. -/
+theorem sha512_chip_gates_shape :
+    Gen.sha512Lookups = [(0, 0, 1), (1, 2, 3)] ∧
+    (List.range 8).all (fun c => Gen.sha512AdvCols.count c == 1) = true ∧ Gen.sha512AdvCols.length = 8 ∧
+    Gen.sha512Modulus = Gen.p ∧ 2 ^ 130 ≤ Gen.sha512Modulus ∧
+    (Gen.sha512Gates .lookup).length = 0 ∧ (Gen.sha512Gates .dW).length = 4 ∧
+    (Gen.sha512Gates .halfch).length = 2 ∧ (Gen.sha512Gates .dA).length = 2 ∧ (Gen.sha512Gates .dE).length = 2 := by
+  decide +kernel
+
+/-- **The loaded table (SHA-512).** Every row `(tag, plain, spreaded)` of the model of
+`sha512/utils.rs: gen_spread_table` (compared row by row with the table the real chip loads) satisfies
+the predicate `InTable` assumed of a lookup: `plain < 2^tag` and `spreaded = spread(plain)`. -/
+theorem sha512_spread_table_spec :
+    ∀ g ∈ Chip512.spreadTable Gen.sha512LookupLengths, ∀ r ∈ g.2, InTable g.1 r.1 r.2 := by
+  intro g hg r hr
+  simp only [Chip512.spreadTable, List.mem_cons, List.mem_map] at hg
+  rcases hg with rfl | ⟨len, hlen, rfl⟩
+  · simp only [List.mem_cons, List.mem_nil_iff, or_false] at hr
+    subst hr
+    exact ⟨by norm_num, rfl⟩
+  · simp only [List.mem_map, List.mem_range] at hr
+    obtain ⟨i, hi, rfl⟩ := hr
+    have hl : len ≤ 64 := by
+      have h := lookup_lengths_ok.2.1
+      have := List.all_eq_true.mp h len hlen
+      simp at this
+      omega
+    exact ⟨hi, Chip512.spread64_of_lt hl hi⟩
+
+/-- **Per-operation soundness, SHA-512** (one region each): `Maj`, `Ch`, `Σ₀`, `Σ₁`, `σ₀`, `σ₁` return the
+FIPS 180-4 (§4.1.3) function of the 64-bit words held by their (copied) inputs; `prepare_A`, `prepare_E`,
+`prepare_message_word` return the sum of their summands modulo `2^64` together with consistent spreaded
+form and limbs — for EVERY assignment satisfying the generated gates, the lookups and the copy constraints
+of the emitted region. -/
+theorem sha512_ops_sound {p : Nat} {a : Asg} (hpr : Nat.Prime p) (hp : 2 ^ 130 ≤ p) (ha : ∀ c, a c < p)
+    (kk ivv : List Nat) (k : Nat) :
+    (∀ sA sB sC x y z, Sat p Gen.sha512Gates a k (Chip512.maj k sA sB sC).1 → Chip512.IsSpr a sA x →
+      Chip512.IsSpr a sB y → Chip512.IsSpr a sC z → Chip512.IsPlain a (Chip512.maj k sA sB sC).2 (C07.maj x y z)) ∧
+    (∀ sE sF sG x y z, Sat p Gen.sha512Gates a k (Chip512.ch k sE sF sG).1 → Chip512.IsSpr a sE x →
+      Chip512.IsSpr a sF y → Chip512.IsSpr a sG z → Chip512.IsPlain a (Chip512.ch k sE sF sG).2 (C07.ch 64 x y z)) ∧
+    (∀ ar x, Sat p Gen.sha512Gates a k (Chip512.Sigma0 k ar).1 → Chip512.AInv a ar x →
+      Chip512.IsPlain a (Chip512.Sigma0 k ar).2 ((sha512P kk ivv).bigSigma0 x)) ∧
+    (∀ er x, Sat p Gen.sha512Gates a k (Chip512.Sigma1 k er).1 → Chip512.EInv a er x →
+      Chip512.IsPlain a (Chip512.Sigma1 k er).2 ((sha512P kk ivv).bigSigma1 x)) ∧
+    (∀ wr x, Sat p Gen.sha512Gates a k (Chip512.sigma0 k wr).1 → Chip512.WInv a wr x →
+      Chip512.IsPlain a (Chip512.sigma0 k wr).2 ((sha512P kk ivv).smallSigma0 x)) ∧
+    (∀ wr x, Sat p Gen.sha512Gates a k (Chip512.sigma1 k wr).1 → Chip512.WInv a wr x →
+      Chip512.IsPlain a (Chip512.sigma1 k wr).2 ((sha512P kk ivv).smallSigma1 x)) ∧
+    (∀ ss, Sat p Gen.sha512Gates a k (Chip512.prepareA k ss).1 → (∀ i, i < 7 → get a (summand ss i) < 2 ^ 64) →
+      Chip512.AInv a (Chip512.prepareA k ss).2 (sum7 a ss % 2 ^ 64)) ∧
+    (∀ ss, Sat p Gen.sha512Gates a k (Chip512.prepareE k ss).1 → (∀ i, i < 7 → get a (summand ss i) < 2 ^ 64) →
+      Chip512.EInv a (Chip512.prepareE k ss).2 (sum7 a ss % 2 ^ 64)) ∧
+    (∀ ss, Sat p Gen.sha512Gates a k (Chip512.prepareW k ss).1 → (∀ i, i < 7 → get a (summand ss i) < 2 ^ 64) →
+      Chip512.WInv a (Chip512.prepareW k ss).2 (sum7 a ss % 2 ^ 64)) :=
+  ⟨fun _ _ _ _ _ _ h1 h2 h3 h4 => Chip512.maj_sound hp ha h1 h2 h3 h4,
+   fun _ _ _ _ _ _ h1 h2 h3 h4 => Chip512.ch_sound hp ha h1 h2 h3 h4,
+   fun _ _ h1 h2 => Chip512.Sigma0_sound hp ha kk ivv h1 h2,
+   fun _ _ h1 h2 => Chip512.Sigma1_sound hp ha kk ivv h1 h2,
+   fun _ _ h1 h2 => Chip512.sigma0_sound hp ha kk ivv h1 h2,
+   fun _ _ h1 h2 => Chip512.sigma1_sound hp ha kk ivv h1 h2,
+   fun _ h1 h2 => Chip512.prepareA_sound hp ha h1 h2,
+   fun _ h1 h2 => Chip512.prepareE_sound hp ha h1 h2,
+   fun _ h1 h2 => Chip512.prepareW_sound hpr hp ha h1 h2⟩
+
+/-- An honest witness of a SHA-512 `Maj` region (inputs in three external cells), as `spreaded_maj` /
+`assign_sprdd_13x4_12` compute it. -/
+def maj512Witness (x y z : Nat) : Asg := fun s =>
+  match s with
+  | .ext 0 => Chip512.spread64 x
+  | .ext 1 => Chip512.spread64 y
+  | .ext 2 => Chip512.spread64 z
+  | .reg 0 off col =>
+    let lo := Chip512.u64InBeLimbs (C07.maj x y z) [13, 13, 13, 13, 12]
+    let le := Chip512.u64InBeLimbs (x ^^^ y ^^^ z) [13, 13, 13, 13, 12]
+    match col with
+    | 0 => lo.getD off 0
+    | 1 => Chip512.spread64 (lo.getD off 0)
+    | 2 => le.getD off 0
+    | 3 => Chip512.spread64 (le.getD off 0)
+    | 4 => if off = 0 then C07.maj x y z else 0
+    | 5 => if off = 0 then Chip512.spread64 x else if off = 1 then Chip512.spread64 z else 0
+    | 6 => if off = 0 then Chip512.spread64 y else 0
+    | _ => 0
+  | _ => 0
+
+/-- Non-vacuity: the hypotheses of the SHA-512 per-operation theorems are satisfiable with the real modulus
+and the generated gates (honest witness of a `Maj` region on non-trivial 64-bit words), and the output cell
+holds `Maj`. For whole blocks the same executable check is run on every region of the REAL prover's witness
+in the correspondence step (`sha512sat`). -/
+example :
+    Sat Gen.sha512Modulus Gen.sha512Gates (maj512Witness 0xdeadbeef01234567 0x123456789abcdef0 0x0f0f0ff1f0f0f00e) 0
+      (Chip512.maj 0 (.ext 0) (.ext 1) (.ext 2)).1 ∧
+    maj512Witness 0xdeadbeef01234567 0x123456789abcdef0 0x0f0f0ff1f0f0f00e (.reg 0 0 4)
+      = C07.maj 0xdeadbeef01234567 0x123456789abcdef0 0x0f0f0ff1f0f0f00e ∧
+    C07.maj 0xdeadbeef01234567 0x123456789abcdef0 0x0f0f0ff1f0f0f00e ≠ 0 := by
+  refine ⟨satB_sound ?_, ?_, ?_⟩ <;> decide +kernel
+
+/-- **sha512_round_sound.** `compression_round` of `sha512_chip.rs` emits six regions (`Σ₀(a)`, `Maj(a,b,c)`,
+`Σ₁(e)`, `Ch(e,f,g)`, `prepare_A`, `prepare_E`) wired by copy constraints. For EVERY assignment satisfying
+them: if the cells of the incoming `CompressionState` hold the working variables `v` (`StInv`: plain,
+spreaded and limb cells consistent), the message-word cell holds `wv < 2^64` and the round constant is a
+64-bit word, then the cells of the returned state hold the FIPS 180-4 round function `round v K_t W_t`. -/
+theorem sha512_round_sound {p : Nat} {a : Asg} (hp : 2 ^ 130 ≤ p) (ha : ∀ c, a c < p) (kk ivv : List Nat)
+    (k : Nat) (st : Chip512.StRefs) (v : List Nat) (rk : Nat) (w : Src) (wv : Nat)
+    (hS : TraceSat p Gen.sha512Gates a k (Chip512.compressionRound k st rk w).1)
+    (hst : Chip512.StInv a st v) (hw : Chip512.IsPlain a w wv) (hk : rk < 2 ^ 64) :
+    Chip512.StInv a (Chip512.compressionRound k st rk w).2 ((sha512P kk ivv).round v rk wv) :=
+  Chip512.round_sound hp ha kk ivv hS hst hw hk
+
+/-- **sha512_schedule_sound.** `message_schedule` (16 × `prepare_message_word` on the block words, then for
+each of the 64 remaining words `σ₀`, `σ₁`, `prepare_message_word`): for every satisfying assignment whose 16
+block-word cells hold the 64-bit words `bv`, the 80 returned message words (with their limbs) hold the
+FIPS 180-4 message schedule of `bv`. -/
+theorem sha512_schedule_sound {p : Nat} {a : Asg} (hpr : Nat.Prime p) (hp : 2 ^ 130 ≤ p) (ha : ∀ c, a c < p)
+    (kk ivv : List Nat) (k : Nat) (block : List Src) (bv : List Nat)
+    (hb : List.Forall₂ (Chip512.IsPlain a) block bv) (hlen : block.length = 16)
+    (hS : TraceSat p Gen.sha512Gates a k (Chip512.messageSchedule k block).1) :
+    List.Forall₂ (Chip512.WInv a) (Chip512.messageSchedule k block).2 ((sha512P kk ivv).scheduleW bv) :=
+  Chip512.messageSchedule_sound hpr hp ha kk ivv hb hlen hS
+
+/-- **sha512_block_sound.** One iteration of the block loop of `fn sha512` — 696 regions: message schedule,
+80 compression rounds (induction over the rounds), `CompressionState::add`. For every satisfying
+assignment: chaining-state cells hold `v`, block-word cells hold `bv` ⇒ the cells of the new chaining state
+hold `compress v bv` (FIPS 180-4 §6.4.2, on the block words). -/
+theorem sha512_block_sound {p : Nat} {a : Asg} (hpr : Nat.Prime p) (hp : 2 ^ 130 ≤ p) (ha : ∀ c, a c < p)
+    (kk ivv : List Nat) (hkk : ∀ t, kk.getD t 0 < 2 ^ 64) (k : Nat) (st : Chip512.StRefs) (v : List Nat)
+    (block : List Src) (bv : List Nat) (hv : v.length = 8) (hst : Chip512.StInv a st v)
+    (hb : List.Forall₂ (Chip512.IsPlain a) block bv) (hlen : block.length = 16)
+    (hS : TraceSat p Gen.sha512Gates a k (Chip512.blockEmit kk k st block).1) :
+    Chip512.StInv a (Chip512.blockEmit kk k st block).2 ((sha512P kk ivv).compressW v bv) :=
+  Chip512.block_sound hpr hp ha kk ivv hkk hv hst hb hlen hS
+
+/-- **sha512_digest_sound.** The whole of `fn sha512` after padding, for any number `n` of blocks
+(induction over the blocks), with the tables generated from the source: for every assignment that
+satisfies all `696·n` emitted regions and whose external block-word cells are 64-bit words (they are
+produced from range-checked bytes by the native gadget, C04), the eight cells returned by
+`CompressionState::plain` hold the SHA-512 chaining value of the blocks `foldl compress IV blocks`, where
+block `b` consists of the values of the external cells `16b … 16b+15`. Not part of this theorem: the
+conversion bytes ↔ words of the native gadget and the padding bytes (`sha512_padding_spec`); both are
+covered by the digest correspondence. -/
+theorem sha512_digest_sound {p : Nat} {a : Asg} (hpr : Nat.Prime p) (hp : 2 ^ 130 ≤ p) (ha : ∀ c, a c < p)
+    (hext : ∀ i, a (.ext i) < 2 ^ 64) (n : Nat)
+    (hS : TraceSat p Gen.sha512Gates a 0 (Chip512.emit Gen.sha512K Gen.sha512IV n).1) :
+    (Chip512.emit Gen.sha512K Gen.sha512IV n).2.plain.map (get a)
+      = ((List.range' 0 n).map (extWords a)).foldl (sha512P Gen.sha512K Gen.sha512IV).compressW Gen.sha512IV := by
+  have hkk : ∀ t, Gen.sha512K.getD t 0 < 2 ^ 64 := by
+    intro t
+    by_cases ht : t < 80
+    · have : ∀ i, i < 80 → Gen.sha512K.getD i 0 < 2 ^ 64 := by decide +kernel
+      exact this t ht
+    · rw [List.getD_eq_default _ _ (by simp [Gen.sha512K]; omega)]; norm_num
+  have hiv : ∀ i, Gen.sha512IV.getD i 0 < 2 ^ 64 := by
+    intro i
+    by_cases hi : i < 8
+    · have : ∀ j, j < 8 → Gen.sha512IV.getD j 0 < 2 ^ 64 := by decide +kernel
+      exact this i hi
+    · rw [List.getD_eq_default _ _ (by simp [Gen.sha512IV]; omega)]; norm_num
+  have h := Chip512.blocks_sound hpr hp ha Gen.sha512K Gen.sha512IV hkk hext n 0 0
+    (Chip512.StRefs.fixed Gen.sha512IV) Gen.sha512IV rfl (Chip512.StInv_fixed hiv) hS
+  rw [← chain_eq_foldl]
+  refine Chip512.StInv.plain_cells h ?_
+  clear h hS
+  have : ∀ (n b : Nat) (v : List Nat), v.length = 8 →
+      (chain (sha512P Gen.sha512K Gen.sha512IV) a n b v).length = 8 := by
+    intro n
+    induction n with
+    | zero => intro _ _ h; exact h
+    | succ m ih => intro b v h; exact ih (b + 1) _ (compressW_length _ _ _ h)
+  exact this n 0 _ rfl
+
+/-- The emitted SHA-512 trace has `696·n` regions and the compression on words is the compression on bytes
+of `Sha2.digest` (the reference function compared with RustCrypto and the chips on every run). -/
+theorem sha512_emit_shape (h block : List Nat) :
+    Chip512.regionsPerBlock = 696 ∧
+    (sha512P Gen.sha512K Gen.sha512IV).compress h block
+      = (sha512P Gen.sha512K Gen.sha512IV).compressW h ((sha512P Gen.sha512K Gen.sha512IV).blockWords block) ∧
+    (Chip512.emit Gen.sha512K Gen.sha512IV 1).1.length = 696 ∧
+    (Chip512.emit Gen.sha512K Gen.sha512IV 2).1.length = 1392 := by
+  refine ⟨rfl, rfl, ?_, ?_⟩ <;> decide +kernel
+
+/-- **sha512_digest_sound for the shipped field.** The native modulus of the running code (`F::MODULUS`,
+dumped by the translator from the SHA-512 configuration) is the BLS12-381 scalar modulus, which is prime
+(Lucas certificate of C10) and larger than `2^130`: `sha512_digest_sound` holds for it without hypotheses
+on the modulus. -/
+theorem sha512_digest_sound_native {a : Asg} (ha : ∀ c, a c < Gen.sha512Modulus)
+    (hext : ∀ i, a (.ext i) < 2 ^ 64) (n : Nat)
+    (hS : TraceSat Gen.sha512Modulus Gen.sha512Gates a 0 (Chip512.emit Gen.sha512K Gen.sha512IV n).1) :
+    (Chip512.emit Gen.sha512K Gen.sha512IV n).2.plain.map (get a)
+      = ((List.range' 0 n).map (extWords a)).foldl (sha512P Gen.sha512K Gen.sha512IV).compressW Gen.sha512IV := by
+  have hm : Gen.sha512Modulus = C10.blsR := by decide +kernel
+  have hpr : Nat.Prime Gen.sha512Modulus := hm ▸ C10.blsR_prime
+  exact sha512_digest_sound hpr (by decide +kernel) ha hext n hS
+
+end Sha512Chip
 
 end MidnightZK.C07
 
